@@ -231,7 +231,11 @@ def authenticate (cfg : Cfg) (s : State) (c : Nat) (x : Conn) (ident digest : By
   | .missing => (errorClose s c, false)
   | .row row =>
     if cfg.H (x.nonce ++ row.secret) = digest then
-      let s1 := s.upd c fun x => { x with
+      -- the subscription gauge counts follow the connection to its new identity
+      let g := x.active.foldl (fun g ch => bump (bump g x.ak ch (-1)) (some ident) ch 1) s.gSubs
+      let s0 := { s with gSubs := g,
+                         labels := if some ident ∈ s.labels then s.labels else s.labels ++ [some ident] }
+      let s1 := s0.upd c fun x => { x with
         ak := some ident, pubchans := row.pubchans, subchans := row.subchans,
         authed := x.authed ++ [(ident, digest, row)] }
       (logAct s1 c (.setLimits (limit OP_PUBLISH * 50)), true)
@@ -359,7 +363,8 @@ def step (cfg : Cfg) (s : State) : Event → State
           if ok then
             let r := loop cfg c s1 x0.buf
             let s2 := setBuf r.1 c r.2.1
-            if r.2.2 = .crash then logAct s2 c .crashed   -- logged by the loop; nothing is closed
+            if r.2.2 = .crash then closeT s2 c            -- on_auth_result logs it and closes
+            else if r.2.2 = .brk then s2                  -- another look-up is in flight: stay paused
             else resumeReading s2 c
           else s1
   | .pause c =>
